@@ -244,6 +244,37 @@ func (*BestChecksums).Checksums
 
 
 
+
+// ---------- C11: what is parsed is what was verified; a signer only from a successful check ----------
+
+pure func armored(s string) bool { len(s) >= 15 && s[:15] == "-----BEGIN PGP " }
+
+func (*ParagraphReader).decodeClearsig
+  requires p != nil && p.reader != nil
+  // on success the reader delivers the signed text of the input and nothing else
+  ensures result == nil ==> p.reader != nil && fresh(p.reader) && p.reader.rem == signedText(old(p.reader.rem))
+  // with a keyring, success means: the signature over exactly that text verified against exactly that keyring, and the
+  // reported signer is the one the check established
+  ensures result == nil && keyring != nil ==> validSig(box(keyring), signedText(old(p.reader.rem)), sigBody(old(p.reader.rem))) && p.signer != nil && p.signer == signerOf(box(keyring), signedText(old(p.reader.rem)), sigBody(old(p.reader.rem)))
+  // no check, no signer
+  ensures (result != nil || keyring == nil) ==> p.signer == old(p.signer)
+  ensures result != nil ==> p.reader == old(p.reader)
+  modifies p.reader, p.signer, p.reader.rem
+
+func NewParagraphReader
+  ensures result1 != nil ==> result0 == nil
+  ensures result1 == nil ==> result0 != nil && fresh(result0) && result0.reader != nil
+  // unsigned input: passed through, never with a signer
+  ensures !armored(readerContent(reader)) ==> result1 == nil && result0.signer == nil && result0.reader.rem == readerContent(reader)
+  // clearsigned input: only the signed text is parsed; with a keyring only after the signature over it verified
+  ensures armored(readerContent(reader)) && result1 == nil ==> result0.reader.rem == signedText(readerContent(reader))
+  ensures armored(readerContent(reader)) && result1 == nil && keyring != nil ==> validSig(box(keyring), signedText(readerContent(reader)), sigBody(readerContent(reader))) && result0.signer == signerOf(box(keyring), signedText(readerContent(reader)), sigBody(readerContent(reader)))
+  ensures armored(readerContent(reader)) && result1 == nil && keyring == nil ==> result0.signer == nil
+
+func (*ParagraphReader).Signer
+  requires p != nil
+  ensures result == p.signer
+
 // ---------- C12: a checksum entry's verifier accepts exactly the streams with the recorded digest ----------
 
 func (*verifier).Write
@@ -587,5 +618,7 @@ property C10: (*DSC).HasArchAll, (*DSC).Maintainers, (*SourceParagraph).Maintain
 property C20: lemma cat_cancel, (*DSC).Copy, (*DSC).Move, (*DSC).Remove, (*Changes).Copy, (*Changes).Move, (*Changes).Remove
 
 property C12: (*verifier).Write, (*verifier).Close, (*FileHash).Verifier, FileHashFromHasher, (*BestChecksums).Checksums, (*SHA256FileHash).UnmarshalControl, (*SHA512FileHash).UnmarshalControl, (*MD5FileHash).UnmarshalControl, (*SHA1FileHash).UnmarshalControl, (*FileHash).unmarshalControl, layout BestChecksums
+
+property C11: (*ParagraphReader).decodeClearsig, NewParagraphReader, (*ParagraphReader).Signer
 
 @*/
